@@ -479,6 +479,17 @@ def _quick_scan(source: Path) -> tuple[str, int]:
     return version, num_elements
 
 
+def _normalize_space(text: str) -> str:
+    """Collapse XML white space (space, tab, CR, LF) and trim the ends.
+
+    Other Unicode space characters, such as the no-break space, are
+    content and must be kept (``str.split()`` would drop them).
+    """
+    for ws in '\t\r\n':
+        text = text.replace(ws, ' ')
+    return ' '.join(part for part in text.split(' ') if part)
+
+
 def _make_parser(root, version, progress):  # noqa: C901
     stack = [root]
     ELEMS = _VALID_ELEMS[version]
@@ -524,7 +535,7 @@ def _make_parser(root, version, progress):  # noqa: C901
         elem = stack.pop()
         # normalize whitespace unless xml:space=preserve
         if 'text' in elem and elem.get(_XMLSPACEATTR, '') != 'preserve':
-            elem['text'] = ' '.join(elem['text'].split())
+            elem['text'] = _normalize_space(elem['text'])
         progress.update(force=(name == 'LexicalResource'))
 
     p.StartElementHandler = start
